@@ -15,7 +15,8 @@ Layers, bottom up:
 5. the conditional refinement of the reference recency list.
 -/
 namespace MdsVerif.Proofs.Cache
-open MdsVerif.Model.Heapq MdsVerif.Model.Cache
+open MdsVerif.Model.Heapq hiding step clear set Op Out S
+open MdsVerif.Model.Cache
 
 /-- the class of heap configurations covered: index arithmetic that moves strictly up / down, and the
 pinned `pop` (no upward repair).  The pinned configuration is in the class (`pinned_ok`). -/
@@ -677,5 +678,342 @@ theorem access_spec {cfg : Cfg} (ok : CfgOK cfg) {s : Lru} (inv : LruInv s) {e :
 theorem access_absent {cfg : Cfg} {s : Lru} (inv : LruInv s) {k : Nat} (hk : k ∉ s.h.data.map (·.key)) :
     s.access cfg k = (s, none) := by
   simp [Lru.access, inv.bwd k hk]
+
+/-! ## 4. the cache -/
+
+/-- `(key, value)` of a heap entry -/
+def kv (e : Entry) : Nat × Nat := (e.key, e.value)
+
+/-- the entries held by the cache, as `(key, value)` pairs in heap-array order -/
+def ents (c : Cache) : List (Nat × Nat) := c.store.h.data.map kv
+
+/-- `Σ sizeOf value` over a list of entries -/
+def sizeSum (sizeOf : Nat → Int) : List Entry → Int
+  | [] => 0
+  | e :: l => sizeOf e.value + sizeSum sizeOf l
+
+theorem sizeSum_perm (sizeOf : Nat → Int) {l l' : List Entry} (hp : l.Perm l') :
+    sizeSum sizeOf l = sizeSum sizeOf l' := by
+  induction hp with
+  | nil => rfl
+  | cons x _ ih => simp only [sizeSum, ih]
+  | swap x y l => simp only [sizeSum]; omega
+  | trans _ _ ih1 ih2 => exact ih1.trans ih2
+
+theorem sizeSum_nonneg {sizeOf : Nat → Int} (hs : ∀ v, 0 ≤ sizeOf v) (l : List Entry) :
+    0 ≤ sizeSum sizeOf l := by
+  induction l with
+  | nil => exact Int.le_refl 0
+  | cons e l ih => have := hs e.value; simp only [sizeSum]; omega
+
+/-- the part of the invariant that also holds inside `Put`'s eviction loop -/
+structure Inv0 (c : Cache) : Prop where
+  lru : LruInv c.store
+  count : c.count = c.store.h.data.length
+  limit_pos : 0 < c.limit
+
+/-- **the accounting invariant** -/
+structure Inv (sizeOf : Nat → Int) (c : Cache) : Prop extends Inv0 c where
+  size : c.size = sizeSum sizeOf c.store.h.data
+  le : c.size ≤ c.limit
+
+theorem inv_empty (sizeOf : Nat → Int) (limit : Int) (h : 0 < limit) : Inv sizeOf { limit := limit } :=
+  { lru := ⟨rfl, fun p e hp => by simp at hp, fun _ _ => rfl, List.nodup_nil, fun e he => by cases he⟩
+    count := rfl, limit_pos := h, size := rfl, le := Int.le_of_lt h }
+
+/-- callbacks of one step: the log grows by `gone` (most recent first), and entries are conserved:
+what was there plus what was `added` is what is there now plus what was reported gone. -/
+def Conserved (c c' : Cache) (added : List (Nat × Nat)) : Prop :=
+  ∃ gone, c'.evicted = gone ++ c.evicted ∧ (gone ++ ents c').Perm (added ++ ents c)
+
+theorem Conserved.refl (c : Cache) : Conserved c c [] := ⟨[], rfl, .refl _⟩
+
+/-- one entry leaves the store and is reported -/
+theorem inv_drop {sizeOf : Nat → Int} (hs : ∀ v, 0 ≤ sizeOf v) {c : Cache} (inv : Inv sizeOf c) {st : Lru}
+    {e : Entry} (hst : LruInv st) (perm : (e :: st.h.data).Perm c.store.h.data) :
+    let c' : Cache := { c with store := st, evicted := (e.key, e.value) :: c.evicted,
+                               size := c.size - sizeOf e.value, count := c.count - 1 }
+    Inv sizeOf c' ∧ Conserved c c' [] := by
+  have hsz := sizeSum_perm sizeOf perm
+  have hlen := perm.length_eq
+  simp only [sizeSum, List.length_cons] at hsz hlen
+  refine ⟨⟨⟨hst, ?_, inv.limit_pos⟩, ?_, ?_⟩, [(e.key, e.value)], rfl, ?_⟩
+  · show c.count - 1 = (st.h.data.length : Int)
+    rw [inv.count, ← hlen]; omega
+  · show c.size - sizeOf e.value = sizeSum sizeOf st.h.data
+    rw [inv.size, ← hsz]; omega
+  · show c.size - sizeOf e.value ≤ c.limit
+    have := hs e.value; have := inv.le; omega
+  · exact perm.map kv
+
+theorem remove_spec_present {cfg : Cfg} (ok : CfgOK cfg) {sizeOf : Nat → Int} (hs : ∀ v, 0 ≤ sizeOf v)
+    {c : Cache} (inv : Inv sizeOf c) {e : Entry} (he : e ∈ c.store.h.data) :
+    (remove cfg sizeOf c e.key).2 = true ∧ Inv sizeOf (remove cfg sizeOf c e.key).1 ∧
+    Conserved c (remove cfg sizeOf c e.key).1 [] ∧
+    (e :: (remove cfg sizeOf c e.key).1.store.h.data).Perm c.store.h.data ∧
+    (remove cfg sizeOf c e.key).1.limit = c.limit := by
+  have hc := check_of_mem inv.lru he
+  obtain ⟨hst, perm, _⟩ := remove_spec ok inv.lru he
+  have := inv_drop hs inv hst perm
+  have hr : remove cfg sizeOf c e.key =
+      ({ c with store := c.store.remove cfg e.key, evicted := (e.key, e.value) :: c.evicted,
+                size := c.size - sizeOf e.value, count := c.count - 1 }, true) := by
+    simp only [remove, hc]
+  rw [hr]
+  exact ⟨rfl, this.1, this.2, perm, rfl⟩
+
+theorem remove_spec_absent {cfg : Cfg} {sizeOf : Nat → Int} {c : Cache} (inv : Inv sizeOf c) {k : Nat}
+    (hk : k ∉ c.store.h.data.map (·.key)) : remove cfg sizeOf c k = (c, false) := by
+  simp only [remove, check_of_not_mem inv.lru hk]
+
+theorem get_spec_present {cfg : Cfg} (ok : CfgOK cfg) {sizeOf : Nat → Int} {c : Cache} (inv : Inv sizeOf c)
+    {e : Entry} (he : e ∈ c.store.h.data) :
+    (get cfg c e.key).2 = some e.value ∧ Inv sizeOf (get cfg c e.key).1 ∧
+    (get cfg c e.key).1.evicted = c.evicted ∧ (ents (get cfg c e.key).1).Perm (ents c) := by
+  obtain ⟨rest, p1, p2, hv, hst, _⟩ := access_spec ok inv.lru he
+  have e1 := sizeSum_perm sizeOf p1
+  have e2 := sizeSum_perm sizeOf p2
+  have l1 := p1.length_eq
+  have l2 := p2.length_eq
+  simp only [sizeSum, List.length_cons] at e1 e2 l1 l2
+  refine ⟨hv, ⟨⟨hst, ?_, inv.limit_pos⟩, ?_, inv.le⟩, rfl, ?_⟩
+  · show c.count = _
+    rw [inv.count]; show _ = ((c.store.access cfg e.key).1.h.data.length : Int); omega
+  · show c.size = sizeSum sizeOf (c.store.access cfg e.key).1.h.data
+    rw [inv.size]; omega
+  · exact (p2.map kv).trans (p1.map kv)
+
+theorem get_spec_absent {cfg : Cfg} {sizeOf : Nat → Int} {c : Cache} (inv : Inv sizeOf c) {k : Nat}
+    (hk : k ∉ c.store.h.data.map (·.key)) : get cfg c k = (c, none) := by
+  simp only [MdsVerif.Model.Cache.get, access_absent inv.lru hk]
+
+theorem Conserved.trans {a b c : Cache} {x y : List (Nat × Nat)} (hab : Conserved a b x)
+    (hbc : Conserved b c y) : Conserved a c (y ++ x) := by
+  obtain ⟨g1, e1, p1⟩ := hab
+  obtain ⟨g2, e2, p2⟩ := hbc
+  refine ⟨g2 ++ g1, by rw [e2, e1, List.append_assoc], ?_⟩
+  rw [List.perm_iff_count] at *
+  intro q
+  have := p1 q; have := p2 q
+  simp only [List.count_append] at *
+  omega
+
+theorem evictLoop_spec {cfg : Cfg} (ok : CfgOK cfg) {sizeOf : Nat → Int} (valSize : Int) :
+    ∀ (fuel : Nat) (c : Cache) (newSize : Int), Inv0 c → c.store.h.data.length < fuel →
+      newSize = sizeSum sizeOf c.store.h.data + valSize → valSize ≤ c.limit →
+      ∃ c' n', evictLoop cfg sizeOf fuel c newSize = .ok (c', n') ∧ Inv0 c' ∧
+        n' = sizeSum sizeOf c'.store.h.data + valSize ∧ n' ≤ c'.limit ∧ c'.limit = c.limit ∧
+        Conserved c c' [] ∧
+        (∀ k, k ∉ c.store.h.data.map (·.key) → k ∉ c'.store.h.data.map (·.key)) := by
+  intro fuel
+  induction fuel with
+  | zero => intro c n _ hlt; omega
+  | succ fuel ih =>
+    intro c n inv hlt hn hle
+    by_cases hgt : n > c.limit
+    · have hne : c.store.h.data ≠ [] := by
+        intro h; rw [h] at hn; simp only [sizeSum] at hn; omega
+      obtain ⟨s', e, hev, _, hst, perm, _⟩ := evict_spec ok inv.lru hne
+      have hsz := sizeSum_perm sizeOf perm
+      have hlen := perm.length_eq
+      simp only [sizeSum, List.length_cons] at hsz hlen
+      let c1 : Cache := { c with store := s', evicted := (e.key, e.value) :: c.evicted, count := c.count - 1 }
+      have inv1 : Inv0 c1 :=
+        ⟨hst, by show c.count - 1 = (s'.h.data.length : Int); rw [inv.count, ← hlen]; omega, inv.limit_pos⟩
+      have hc1 : Conserved c c1 [] := ⟨[(e.key, e.value)], rfl, perm.map kv⟩
+      obtain ⟨c', n', hl, inv', hn', hle', hlim, hcons, hkeys⟩ :=
+        ih c1 (n - sizeOf e.value) inv1 (by show s'.h.data.length < fuel; omega)
+          (by show _ = sizeSum sizeOf s'.h.data + valSize; omega) hle
+      refine ⟨c', n', ?_, inv', hn', hle', hlim, hc1.trans hcons, ?_⟩
+      · simp only [evictLoop, hgt, if_true, hev]; exact hl
+      · intro k hk
+        apply hkeys
+        intro hm
+        exact hk (((perm.map (·.key)).mem_iff).1 (List.mem_cons_of_mem _ hm))
+    · refine ⟨c, n, by simp only [evictLoop, hgt, if_false], inv, hn, by omega, rfl, .refl c, fun _ h => h⟩
+
+/-- the state of `Put` after an existing entry for the key has been removed -/
+def putReplace (cfg : Cfg) (sizeOf : Nat → Int) (c : Cache) (key : Nat) : Cache :=
+  match c.store.check key with
+  | some old =>
+    { c with store := c.store.remove cfg key, evicted := (key, old) :: c.evicted,
+             size := c.size - sizeOf old, count := c.count - 1 }
+  | none => c
+
+theorem putReplace_spec {cfg : Cfg} (ok : CfgOK cfg) {sizeOf : Nat → Int} (hs : ∀ v, 0 ≤ sizeOf v)
+    {c : Cache} (inv : Inv sizeOf c) (k : Nat) :
+    Inv sizeOf (putReplace cfg sizeOf c k) ∧ Conserved c (putReplace cfg sizeOf c k) [] ∧
+    k ∉ (putReplace cfg sizeOf c k).store.h.data.map (·.key) ∧
+    (putReplace cfg sizeOf c k).limit = c.limit := by
+  by_cases hk : k ∈ c.store.h.data.map (·.key)
+  · obtain ⟨e, he, rfl⟩ := List.mem_map.1 hk
+    have hc := check_of_mem inv.lru he
+    obtain ⟨hst, perm, _⟩ := remove_spec ok inv.lru he
+    have := inv_drop hs inv hst perm
+    have hr : putReplace cfg sizeOf c e.key =
+        { c with store := c.store.remove cfg e.key, evicted := (e.key, e.value) :: c.evicted,
+                 size := c.size - sizeOf e.value, count := c.count - 1 } := by
+      simp only [putReplace, hc]
+    rw [hr]
+    exact ⟨this.1, this.2, (perm_cons_nodup_keys perm inv.lru.nodup).1, rfl⟩
+  · have hr : putReplace cfg sizeOf c k = c := by
+      simp only [putReplace, check_of_not_mem inv.lru hk]
+    rw [hr]
+    exact ⟨inv, .refl c, hk, rfl⟩
+
+theorem put_eq (cfg : Cfg) (sizeOf : Nat → Int) (c : Cache) (key val : Nat) (h : ¬ sizeOf val > c.limit) :
+    put cfg sizeOf c key val =
+      (match evictLoop cfg sizeOf ((putReplace cfg sizeOf c key).store.h.len + 1) (putReplace cfg sizeOf c key)
+          ((putReplace cfg sizeOf c key).size + sizeOf val) with
+      | .panic m => .panic m
+      | .ok (c2, newSize) =>
+        match c2.store.store cfg key val with
+        | .panic m => .panic m
+        | .ok st => .ok ({ c2 with store := st, size := newSize, count := c2.count + 1 }, true)) := by
+  simp only [put, h, if_false, putReplace]
+  rfl
+
+theorem put_refused (cfg : Cfg) (sizeOf : Nat → Int) (c : Cache) (key val : Nat) (h : sizeOf val > c.limit) :
+    put cfg sizeOf c key val = .ok (c, false) := by
+  simp only [put, h, if_true]
+
+theorem put_spec {cfg : Cfg} (ok : CfgOK cfg) {sizeOf : Nat → Int} (hs : ∀ v, 0 ≤ sizeOf v)
+    {c : Cache} (inv : Inv sizeOf c) (k v : Nat) (h : ¬ sizeOf v > c.limit) :
+    ∃ c', put cfg sizeOf c k v = .ok (c', true) ∧ Inv sizeOf c' ∧ Conserved c c' [(k, v)] ∧
+      (k, v) ∈ ents c' ∧ c'.limit = c.limit := by
+  obtain ⟨inv1, cons1, hk1, hlim1⟩ := putReplace_spec (cfg := cfg) ok hs inv k
+  obtain ⟨c2, n2, hl, inv2, hn2, hle2, hlim2, cons2, hkeys⟩ :=
+    evictLoop_spec ok (sizeOf := sizeOf) (sizeOf v) ((putReplace cfg sizeOf c k).store.h.len + 1)
+      (putReplace cfg sizeOf c k) ((putReplace cfg sizeOf c k).size + sizeOf v) inv1.toInv0
+      (by simp [H.len]) (by rw [inv1.size]) (by rw [hlim1]; omega)
+  obtain ⟨st, hst, invst, perm, _⟩ := store_spec ok inv2.lru v (hkeys k hk1)
+  have hsz := sizeSum_perm sizeOf perm
+  have hlen := perm.length_eq
+  simp only [sizeSum, List.length_cons] at hsz hlen
+  let c' : Cache := { c2 with store := st, size := n2, count := c2.count + 1 }
+  have hc' : Conserved c2 c' [(k, v)] := ⟨[], rfl, perm.map kv⟩
+  refine ⟨c', ?_, ⟨⟨invst, ?_, inv2.limit_pos⟩, ?_, hle2⟩, (cons1.trans cons2).trans hc', ?_, ?_⟩
+  · rw [put_eq cfg sizeOf c k v h, hl]
+    simp only [hst]
+    rfl
+  · show c2.count + 1 = (st.h.data.length : Int)
+    rw [inv2.count, hlen]; omega
+  · show n2 = sizeSum sizeOf st.h.data
+    rw [hn2, hsz]; omega
+  · exact ((perm.map kv).mem_iff).2 (List.mem_cons_self)
+  · show c2.limit = c.limit
+    rw [hlim2, hlim1]
+
+theorem clearLoop_spec {cfg : Cfg} (ok : CfgOK cfg) {sizeOf : Nat → Int} (hs : ∀ v, 0 ≤ sizeOf v) :
+    ∀ (fuel : Nat) (c : Cache), Inv sizeOf c → c.store.h.data.length < fuel →
+      ∃ c', clearLoop cfg sizeOf fuel c = .ok c' ∧ Inv sizeOf c' ∧ c'.store.h.data = [] ∧
+        Conserved c c' [] ∧ c'.limit = c.limit := by
+  intro fuel
+  induction fuel with
+  | zero => intro c _ hlt; omega
+  | succ fuel ih =>
+    intro c inv hlt
+    by_cases hgt : c.count > 0
+    · have hne : c.store.h.data ≠ [] := by
+        intro h; have := inv.count; rw [h] at this; simp at this; omega
+      obtain ⟨s', e, hev, _, hst, perm, _⟩ := evict_spec ok inv.lru hne
+      have hlen := perm.length_eq
+      simp only [List.length_cons] at hlen
+      obtain ⟨inv1, cons1⟩ := inv_drop hs inv hst perm
+      obtain ⟨c', hl, inv', hd, cons', hlim⟩ := ih _ inv1 (by show s'.h.data.length < fuel; omega)
+      refine ⟨c', ?_, inv', hd, cons1.trans cons', hlim⟩
+      simp only [clearLoop, hgt, if_true, hev]; exact hl
+    · refine ⟨c, by simp only [clearLoop, hgt, if_false], inv, ?_, .refl c, rfl⟩
+      have := inv.count
+      apply List.length_eq_zero_iff.1
+      omega
+
+/-- `Clear` never trips its consistency panic and empties the cache -/
+theorem clear_spec {cfg : Cfg} (ok : CfgOK cfg) {sizeOf : Nat → Int} (hs : ∀ v, 0 ≤ sizeOf v)
+    {c : Cache} (inv : Inv sizeOf c) :
+    ∃ c', clear cfg sizeOf c = .ok c' ∧ Inv sizeOf c' ∧ c'.store.h.data = [] ∧ Conserved c c' [] ∧
+      c'.limit = c.limit := by
+  obtain ⟨c', hl, inv', hd, cons, hlim⟩ :=
+    clearLoop_spec ok hs (c.count.toNat + 1) c inv (by have := inv.count; omega)
+  refine ⟨c', ?_, inv', hd, cons, hlim⟩
+  have h1 : c'.size = 0 := by rw [inv'.size, hd]; rfl
+  have h2 : c'.count = 0 := by rw [inv'.count, hd]; rfl
+  simp [MdsVerif.Model.Cache.clear, hl, h1, h2]
+
+/-! ### steps and histories -/
+
+/-- what a step puts into the store: `(k, v)` for a `Put k v` that reports `true` -/
+def addedBy (op : Op) (o : Out) : List (Nat × Nat) :=
+  match op, o with
+  | .put k v, .bool true => [(k, v)]
+  | _, _ => []
+
+/-- the state after a history -/
+def exec (cfg : Cfg) (sizeOf : Nat → Int) (c : Cache) : List Op → Cache
+  | [] => c
+  | op :: ops => exec cfg sizeOf (step cfg sizeOf c op).1 ops
+
+/-- the outputs of a history -/
+def outs (cfg : Cfg) (sizeOf : Nat → Int) (c : Cache) : List Op → List Out
+  | [] => []
+  | op :: ops => (step cfg sizeOf c op).2 :: outs cfg sizeOf (step cfg sizeOf c op).1 ops
+
+/-- every `(k, v)` that entered the store during a history (successful `Put`s), most recent first -/
+def entered (cfg : Cfg) (sizeOf : Nat → Int) (c : Cache) : List Op → List (Nat × Nat)
+  | [] => []
+  | op :: ops =>
+    entered cfg sizeOf (step cfg sizeOf c op).1 ops ++ addedBy op (step cfg sizeOf c op).2
+
+theorem step_inv {cfg : Cfg} (ok : CfgOK cfg) {sizeOf : Nat → Int} (hs : ∀ v, 0 ≤ sizeOf v)
+    {c : Cache} (inv : Inv sizeOf c) (op : Op) :
+    Inv sizeOf (step cfg sizeOf c op).1 ∧ (step cfg sizeOf c op).1.limit = c.limit ∧
+    Conserved c (step cfg sizeOf c op).1 (addedBy op (step cfg sizeOf c op).2) ∧
+    ∀ m, (step cfg sizeOf c op).2 ≠ .panic m := by
+  cases op with
+  | put k v =>
+    by_cases h : sizeOf v > c.limit
+    · simp only [step, put_refused cfg sizeOf c k v h]
+      exact ⟨inv, trivial, .refl c, fun m hm => by cases hm⟩
+    · obtain ⟨c', hp, inv', cons, _, hlim⟩ := put_spec ok hs inv k v h
+      simp only [step, hp]
+      exact ⟨inv', hlim, cons, fun m hm => by cases hm⟩
+  | get k =>
+    by_cases hk : k ∈ c.store.h.data.map (·.key)
+    · obtain ⟨e, he, rfl⟩ := List.mem_map.1 hk
+      obtain ⟨_, inv', hev, perm⟩ := get_spec_present ok inv he
+      exact ⟨inv', rfl, ⟨[], hev, perm⟩, fun m hm => by cases hm⟩
+    · simp only [step, get_spec_absent inv hk]
+      exact ⟨inv, trivial, .refl c, fun m hm => by cases hm⟩
+  | has k => exact ⟨inv, rfl, .refl c, fun m hm => by cases hm⟩
+  | remove k =>
+    by_cases hk : k ∈ c.store.h.data.map (·.key)
+    · obtain ⟨e, he, rfl⟩ := List.mem_map.1 hk
+      obtain ⟨_, inv', cons, _, hlim⟩ := remove_spec_present ok hs inv he
+      exact ⟨inv', hlim, cons, fun m hm => by cases hm⟩
+    · simp only [step, remove_spec_absent inv hk]
+      exact ⟨inv, trivial, .refl c, fun m hm => by cases hm⟩
+  | clear =>
+    obtain ⟨c', hc, inv', _, cons, hlim⟩ := clear_spec ok hs inv
+    simp only [step, hc]
+    exact ⟨inv', hlim, cons, fun m hm => by cases hm⟩
+  | len => exact ⟨inv, rfl, .refl c, fun m hm => by cases hm⟩
+  | size => exact ⟨inv, rfl, .refl c, fun m hm => by cases hm⟩
+
+theorem exec_inv {cfg : Cfg} (ok : CfgOK cfg) {sizeOf : Nat → Int} (hs : ∀ v, 0 ≤ sizeOf v)
+    (ops : List Op) : ∀ {c : Cache}, Inv sizeOf c →
+      Inv sizeOf (exec cfg sizeOf c ops) ∧ (exec cfg sizeOf c ops).limit = c.limit ∧
+      Conserved c (exec cfg sizeOf c ops) (entered cfg sizeOf c ops) ∧
+      ∀ o ∈ outs cfg sizeOf c ops, ∀ m, o ≠ .panic m := by
+  induction ops with
+  | nil => intro c inv; exact ⟨inv, rfl, .refl c, fun o ho => by cases ho⟩
+  | cons op ops ih =>
+    intro c inv
+    obtain ⟨inv1, hlim1, cons1, np1⟩ := step_inv ok hs inv op
+    obtain ⟨inv2, hlim2, cons2, np2⟩ := ih inv1
+    refine ⟨inv2, hlim2.trans hlim1, cons1.trans cons2, ?_⟩
+    intro o ho
+    rcases List.mem_cons.1 ho with rfl | ho
+    · exact np1
+    · exact np2 o ho
 
 end MdsVerif.Proofs.Cache
